@@ -61,6 +61,17 @@ def make_workload(seed, i):
                                                            ("triple", M.Named("SteerTriple", tuple(prims)), gu.chance(0.5)),
                                                            ("envelope", M.Named("SteerEnvelope", (prims[1], prims[2])), gu.chance(0.5))]))
         desc["generic_unions"] = True
+    cs = rng.fork("caseonly")
+    if cs.chance(0.3):
+        # names that differ in letter case only (XMLBlob / XmlBlob): two definitions, two files per file-per-type back end
+        fn = sorted(pkg.files)[0]
+        stem = cs.choice(["Blob", "Header", "Info"])
+        a, b = "SteerXML" + stem, "SteerXml" + stem
+        order = [a, b] if cs.chance(0.5) else [b, a]
+        pkg.files[fn].append(M.Record(order[0], (), [("payload", M.Prim("string")), ("size", M.Prim("uint32"))]))
+        pkg.files[fn].append(M.Record(order[1], (), [("text", M.Prim("string"))]))
+        pkg.files[fn].append(M.Protocol("SteerCaseOnly", [("first", M.Named(a), False), ("second", M.Named(b), True)]))
+        desc["names_differing_in_case_only"] = [a, b]
     sh = rng.fork("shared")
     if len(pkg.imports) >= 2 and sh.chance(0.6):
         # the same type name in two imported packages (each namespace has its own)
@@ -105,6 +116,7 @@ def make_workload(seed, i):
             what_.append(E.apply_edit(pkg, eb, eb.choice(["retype_field", "change_enum", "shrink_enum"])))
         desc["evolution_breaking_edits"] = [w_ for w_ in what_ if w_]
     files = M.render_tree(pkg, "/w")
+    desc["other_files_in_package_dirs"] = len(M.add_clutter(files, rng.fork("clutter")))
     if kind == "invalid" and not desc.get("evolution_breaking_edits"):      # (evolution is only checked once everything else is valid)
         # several independent errors so that the order of diagnostics matters
         n = rng.randint(1, 4)
